@@ -37,6 +37,12 @@ def run(ctx: Ctx):
     model = ctx.model
     from .common_node import names_resolve
     names_resolve(ctx, "C06-RN")
+    from . import c18 as _c18
+    ctx.include(_c18.run, {"C18-R3"}, "C06-R8",
+                "a message counts as queued from add_out_msg until the writer has appended it: the "
+                "3010 CEA of an unknown peer is handed to the transport before the CLOSING connection "
+                "is closed", floor=1,
+                constructs=lambda c: c.startswith(("PeerConnection.has_queued_messages", "work_write_queue:task_done")))
     from . import c11 as _c11
     ctx.include(_c11.run, {"C11-R5"}, "C06-R5d",
                 "the timer pass of the I/O loop covers every connection it does not close (the "
